@@ -91,6 +91,7 @@ type caseJ struct {
 	Base     []viewJ     `json:"base"`
 	Gen      []viewJ     `json:"gen"`
 	Heads    []string    `json:"heads"`
+	BHeads   []string    `json:"bheads"` // head of the base result's Error(): "the base rendering"
 	SuffixOK []bool      `json:"suffix_ok"`
 	FVals    [][]fval    `json:"fvals"`
 	Panic    string      `json:"panic,omitempty"`
@@ -229,7 +230,15 @@ func runCase(kind string, ft *farmType, name, msg, src string, steps []stepDesc)
 			ok = strings.HasSuffix(full, suffix)
 			head = strings.TrimSuffix(full, suffix)
 		}
+		bfull := res[0].Error()
+		bhead := bfull
+		if st := res[0].ErrStack(); len(st) > 0 {
+			suffix := "\n" + st.String()
+			ok = ok && strings.HasSuffix(bfull, suffix)
+			bhead = strings.TrimSuffix(bfull, suffix)
+		}
 		c.Heads = append(c.Heads, head)
+		c.BHeads = append(c.BHeads, bhead)
 		c.SuffixOK = append(c.SuffixOK, ok)
 		got := ft.Get(res[1])
 		fv := make([]fval, len(got))
@@ -286,7 +295,7 @@ func gallina(c caseJ) string {
 	})
 	return "{| n_fields := " + gal.List(fields) + "; n_name := " + gstr(c.Name) + "; n_msg := " + gstr(c.Msg) + "; n_src := " + gstr(c.Src) +
 		"; n_steps := " + steps + "; n_base := " + gal.ListOf(c.Base, gview) + "; n_gen := " + gal.ListOf(c.Gen, gview) +
-		"; n_heads := " + gal.ListOf(c.Heads, gstr) + "; n_suffix_ok := " + gal.ListOf(c.SuffixOK, gal.Bool) + "; n_fvals := " + fv + " |}"
+		"; n_heads := " + gal.ListOf(c.Heads, gstr) + "; n_bheads := " + gal.ListOf(c.BHeads, gstr) + "; n_suffix_ok := " + gal.ListOf(c.SuffixOK, gal.Bool) + "; n_fvals := " + fv + " |}"
 }
 
 func asciiJSON(v any) json.RawMessage {
